@@ -18,6 +18,12 @@ UNRELATED = {
     "pyproject.toml": "[build-system]\nrequires = [\"setuptools\"]\n\n[tool.black]\nline-length = 100\n",
     "bumpver.toml": "[other]\nkey = \"value\"\n", ".bumpver.toml": "# just a comment\n", "pycalver.toml": "[misc]\nx = 1\n",
 }
+TOOLTABLE = {
+    "setup.cfg": "[tool:pytest]\naddopts = -q\n\n[mypy]\nstrict = True\n",
+    "pyproject.toml": "[tool.black]\nline-length = 100\n\n[tool.isort]\nprofile = \"black\"\n",
+    "bumpver.toml": "[tool.black]\nline-length = 100\n", ".bumpver.toml": "[tool.other]\nx = 1\n",
+    "pycalver.toml": "[tool.black]\nline-length = 88\n\n[project]\nname = \"x\"\n",
+}
 UNRELATED_HARD = {
     "setup.cfg": "[metadata]\r\nname = ünï\r\ndescription = no trailing newline",
     "pyproject.toml": "[tool.poetry]\r\nname = \"ünï-🚀\"\r\n\r\n[tool.other]\r\nbumpver_like = \"current_version\"",
@@ -40,9 +46,9 @@ SPEC = dict(
     level="exploration",
     rule=("quick: ALL 2^8 subsets of {README.md, README.rst, setup.py, setup.cfg, pyproject.toml, bumpver.toml, "
           ".bumpver.toml, pycalver.toml} with each config-capable file {absent, empty, unrelated content, unrelated "
-          "content without final newline} and the other files present with content (8 x 4^5 = 8,192 layouts) + layouts "
+          "content without final newline} and the other files present with content (incl. a [tool.x] table; 8 x 5^5 = 25,000 layouts) + layouts "
           "with an existing bumpver section; thorough: config-capable files {absent, empty, unrelated, no final "
-          "newline, existing section, unrelated CRLF/Unicode/no final newline} (8 x 6^5 = 62,208); each layout: init --dry, init, show, init again; non-trivial+distinct = distinct "
+          "newline, existing section, unrelated CRLF/Unicode/no final newline} (8 x 7^5 = 134,456); each layout: init --dry, init, show, init again; non-trivial+distinct = distinct "
           "(layout, file chosen) pairs"),
     assumptions=["prior content of config-capable files is valid TOML/INI (init appends to it)",
                  "the initial version is '<current UTC year>.1001-alpha'"],
@@ -56,7 +62,8 @@ SPEC = dict(
 
 
 def cases(ctx):
-    opts = ["absent", "empty", "unrelated", "nonl"] if ctx.quick else ["absent", "empty", "unrelated", "nonl", "section", "hard"]
+    opts = ["absent", "empty", "unrelated", "nonl", "tooltable"] if ctx.quick else \
+        ["absent", "empty", "unrelated", "nonl", "tooltable", "section", "hard"]
     k = 0
     for plain in itertools.product([False, True], repeat=3):
         for cfgs in itertools.product(opts, repeat=5):
@@ -89,6 +96,9 @@ def run_case(ctx, case):
             files[fn] = UNRELATED[fn]
         elif opt == "hard":
             files[fn] = UNRELATED_HARD[fn]
+        elif opt == "tooltable":
+            # unrelated content that uses the [tool.*] namespace (a bumpver.toml may hold other tools' tables)
+            files[fn] = TOOLTABLE[fn]
         elif opt == "nonl":
             files[fn] = UNRELATED[fn].rstrip("\n")   # prior content whose last line has no newline
         elif opt == "section":
